@@ -191,9 +191,72 @@ func c18Run(t *testing.T, h []int) (res seqx.Result) {
 	return res
 }
 
+// c18Boundary: one call whose comment has exactly n bytes, under a size limit, through one of three
+// paths (0 create, 1 in-place edit, 2 replacing edit). Whatever the answer, nothing stored may be
+// larger than the limit, and a refusal leaves the store as it was.
+func c18Boundary(t *testing.T, limit, path, n int) (viol, desc string, accepted bool) {
+	synctest.Test(t, func(t *testing.T) {
+		defer func() {
+			if r := recover(); r != nil {
+				viol, desc = "panic", fmt.Sprint(r)
+			}
+		}()
+		sils, err := silence.New(silence.Options{Retention: c12Ret, Metrics: prometheus.NewRegistry(),
+			Limits: silence.Limits{MaxSilenceSizeBytes: func() int { return limit }}})
+		if err != nil {
+			panic(err)
+		}
+		y := &c12Sys{api: API{uptime: time.Now(), silences: sils, logger: promslog.NewNopLogger()}, sils: sils,
+			m: &c12Model{recs: map[string]*c12Rec{}, all: map[string]bool{}}, slot: map[string]string{}, names: map[string]string{}}
+		time.Sleep(1500 * time.Millisecond)
+		now := time.Now()
+		id := ""
+		class := "A"
+		if path > 0 {
+			var code int
+			if code, id = y.post("", "A", now, now.Add(4*c12U), "c", nil); code != 200 {
+				viol, desc = "small-silence-rejected", fmt.Sprint(code)
+				return
+			}
+			time.Sleep(time.Millisecond)
+			if path == 2 {
+				class = "B"
+			}
+		}
+		before := c18Dump(y)
+		code, _ := y.post(id, class, now, now.Add(4*c12U), strings.Repeat("x", n), nil)
+		accepted = code == 200
+		time.Sleep(time.Millisecond)
+		if !accepted && c18Dump(y) != before {
+			viol, desc = "rejected-call-changed-the-store", fmt.Sprintf("limit %d path %d comment of %d bytes: answered %d but the stored silences changed", limit, path, n, code)
+			return
+		}
+		ps, _, _ := sils.Query(t.Context())
+		for _, p := range ps {
+			if sz := proto.Size(p); sz > limit {
+				viol, desc = "silence-size-exceeds-limit", fmt.Sprintf("limit %d path %d comment of %d bytes: answered %d, a stored silence has %d encoded bytes", limit, path, n, code, sz)
+				return
+			}
+		}
+	})
+	return
+}
+
 func TestVerifC18Silences(t *testing.T) {
 	part := "silence-limits"
 	if rp := rep.ReplaySpec(); rp != nil {
+		if rp["part"] == "silence-size-boundary" {
+			ints := rep.Ints(rp["case"])
+			v, d, _ := c18Boundary(t, ints[0], ints[1], ints[2])
+			fmt.Printf("REPLAY violation=%q %s\n", v, d)
+			R := rep.New("C18", "silence-size-boundary")
+			R.Executions = 1
+			if v != "" {
+				R.Violate(v, d, rp)
+			}
+			R.Write()
+			return
+		}
 		if rp["part"] != part {
 			return
 		}
@@ -216,4 +279,36 @@ func TestVerifC18Silences(t *testing.T) {
 		Run: func(h []int) seqx.Result { return c18Run(t, h) }}
 	e.Explore()
 	R.Write()
+	if shard, _ := rep.Shard(); shard == 0 {
+		R := rep.New("C18", "silence-size-boundary")
+		limits := []int{150, 220, 300}
+		if rep.Thorough() {
+			limits = []int{130, 150, 187, 220, 256, 300, 400}
+		}
+		for _, limit := range limits {
+			for path := 0; path < 3; path++ {
+				flips := 0
+				last := true
+				for n := 0; n <= limit+16; n++ {
+					v, d, acc := c18Boundary(t, limit, path, n)
+					R.Executions++
+					R.Transitions++
+					if v != "" && R.NViolations < 5 {
+						R.Violate(v, d, map[string]any{"part": "silence-size-boundary", "case": []int{limit, path, n}})
+					}
+					if acc != last {
+						flips++
+						last = acc
+						R.AddKey(fmt.Sprint(limit, path, n))
+					}
+				}
+				if flips != 1 && R.NViolations < 5 {
+					R.Violate("size-limit-not-a-threshold", fmt.Sprintf("limit %d path %d: acceptance changed %d times over comment lengths 0..%d", limit, path, flips, limit+16), map[string]any{"part": "silence-size-boundary", "rerun": true})
+				}
+			}
+		}
+		R.Exhaustive = true
+		R.Bound = fmt.Sprintf("size limits %v x {create, in-place edit, replacing edit} x every comment length 0..limit+16", limits)
+		R.Write()
+	}
 }
